@@ -3,7 +3,7 @@ package modules
 // BOUNDED stand-in for the run-level statements of C06, which the deductive check leaves open (it
 // proves per function that a recover is installed, that the error built from the recovered value
 // is reported and returned, and that the counters are balanced on every path; it does not run
-// goroutines): for six kinds of panic value, a panic is raised inside a blocking worker, a
+// goroutines): for eight kinds of panic value, a panic is raised inside a blocking worker, a
 // started worker, a service worker, a task (queued, prioritized, as soon as possible, scheduled),
 // a microtask of every priority in its blocking and started form, and an event hook of a module
 // that is online, and inside the prep / start / stop routine of a registered module. Checked: the
@@ -19,6 +19,8 @@ import (
 	"errors"
 	"fmt"
 	"reflect"
+	"runtime"
+	"strings"
 	"sync/atomic"
 	"testing"
 	"time"
@@ -27,6 +29,39 @@ import (
 )
 
 type c06custom struct{ a, b int }
+
+// markers for panics whose value the runtime makes: panic(nil) arrives as *runtime.PanicNilError,
+// an index out of range as a runtime.Error
+type (
+	c06nilPanic     struct{}
+	c06runtimePanic struct{}
+)
+
+// c06raise panics with val (or in the way the marker stands for)
+func c06raise(val interface{}) {
+	switch val.(type) {
+	case c06nilPanic:
+		panic(nil) //nolint:govet
+	case c06runtimePanic:
+		var empty []int
+		idx := 3
+		_ = empty[idx]
+	}
+	panic(val)
+}
+
+// c06same reports whether got is the panic value that raising val produces
+func c06same(got, val interface{}) bool {
+	switch val.(type) {
+	case c06nilPanic:
+		_, ok := got.(*runtime.PanicNilError)
+		return ok
+	case c06runtimePanic:
+		e, ok := got.(runtime.Error)
+		return ok && strings.Contains(e.Error(), "index out of range")
+	}
+	return reflect.DeepEqual(got, val)
+}
 
 // c06badErr is an error whose methods cannot be called on the nil pointer
 type c06badErr struct{ text string }
@@ -65,7 +100,7 @@ func TestBoundedC06Panics(t *testing.T) {
 		for {
 			select {
 			case me := <-reports:
-				if reflect.DeepEqual(me.PanicValue, val) {
+				if c06same(me.PanicValue, val) {
 					return me
 				}
 			case <-deadline:
@@ -92,7 +127,7 @@ func TestBoundedC06Panics(t *testing.T) {
 			fail(fmt.Sprintf("%s: the returned error does not identify itself as a panic: %T %v", desc, err, err))
 			return
 		}
-		if me.Severity != "panic" || !reflect.DeepEqual(me.PanicValue, val) || me.StackTrace == "" {
+		if me.Severity != "panic" || !c06same(me.PanicValue, val) || me.StackTrace == "" {
 			fail(fmt.Sprintf("%s: the returned error carries severity %q, value %v (want %v), stack trace of %d bytes", desc, me.Severity, me.PanicValue, val, len(me.StackTrace)))
 		}
 	}
@@ -116,6 +151,8 @@ func TestBoundedC06Panics(t *testing.T) {
 		name string
 		val  interface{}
 	}{
+		{"nil", c06nilPanic{}},
+		{"a runtime error (index out of range)", c06runtimePanic{}},
 		{"string", "boom"},
 		{"error", errors.New("boom error")},
 		{"int", 42},
@@ -138,7 +175,7 @@ func TestBoundedC06Panics(t *testing.T) {
 
 	for _, v := range values {
 		v := v
-		boom := func(context.Context) error { panic(v.val) }
+		boom := func(context.Context) error { c06raise(v.val); return nil }
 
 		// ---- workers
 		cases++
@@ -166,7 +203,7 @@ func TestBoundedC06Panics(t *testing.T) {
 		release := make(chan struct{})
 		m.StartServiceWorker("sw", time.Millisecond, func(ctx context.Context) error {
 			if atomic.AddInt32(&runs, 1) <= 2 {
-				panic(v.val)
+				c06raise(v.val)
 			}
 			<-release
 			return nil
@@ -192,7 +229,7 @@ func TestBoundedC06Panics(t *testing.T) {
 				// tasks.go; not part of C06, so every run takes a moment)
 				time.Sleep(5 * time.Millisecond)
 				if atomic.AddInt32(&taskRuns, 1) == 1 {
-					panic(v.val)
+					c06raise(v.val)
 				}
 				return nil
 			})
@@ -267,7 +304,8 @@ func TestBoundedC06Panics(t *testing.T) {
 		modules[m.Name] = m
 		if err := m.RegisterEventHook(m.Name, evName, "c06 hook", func(context.Context, interface{}) error {
 			atomic.AddInt32(&hookRuns, 1)
-			panic(v.val)
+			c06raise(v.val)
+			return nil
 		}); err != nil {
 			fail(desc + ": cannot register the hook: " + err.Error())
 		} else {
@@ -312,7 +350,7 @@ func TestBoundedC06Panics(t *testing.T) {
 		initialStartCompleted.SetTo(wasCompleted)
 		moduleMgmtEnabled.SetTo(wasMgmt)
 	}()
-	for _, v := range values[:2] {
+	for _, v := range values[:4] {
 		v := v
 		for _, phase := range []string{"prep", "start", "stop"} {
 			cases++
@@ -324,7 +362,7 @@ func TestBoundedC06Panics(t *testing.T) {
 			mk := func(p string) func() error {
 				return func() error {
 					if p == phase {
-						panic(v.val)
+						c06raise(v.val)
 					}
 					return nil
 				}
@@ -360,7 +398,7 @@ func TestBoundedC06Panics(t *testing.T) {
 		}
 	}
 
-	fmt.Printf("BOUNDED name=C06/panic-containment cases=%d distinct=%d bound=6 kinds of panic value (string, error, int, struct, context.Canceled, nil pointer of an error type) x blocking worker, started worker, service worker (two panics, then healthy), task submitted by Queue / QueuePrioritized / StartASAP / Schedule (panics on its first run, submitted again), blocking and started microtask of each of the 3 priorities, event hook (two triggers) on one online module; prep / start / stop routine of a registered module x 2 kinds of panic value; one goroutine issuing the requests, waiting for each report\n", cases, cases)
+	fmt.Printf("BOUNDED name=C06/panic-containment cases=%d distinct=%d bound=8 kinds of panic value (nil, a runtime error, string, error, int, struct, context.Canceled, nil pointer of an error type) x blocking worker, started worker, service worker (two panics, then healthy), task submitted by Queue / QueuePrioritized / StartASAP / Schedule (panics on its first run, submitted again), blocking and started microtask of each of the 3 priorities, event hook (two triggers) on one online module; prep / start / stop routine of a registered module x 4 kinds of panic value; one goroutine issuing the requests, waiting for each report\n", cases, cases)
 	if fails > 0 {
 		t.Fatalf("%d checks of %d cases fail", fails, cases)
 	}
